@@ -112,6 +112,10 @@ type Exec struct {
 	modAllowed []modLoc
 	dry0 bool
 	curFr *Frame
+	curSt *State
+	defMemo map[string]string
+	callOrdinal map[string]int
+	ghostVars map[string]Val // verdicts of the last crypto primitive calls (sig_ok, aead_ok)
 	curPos token.Pos
 }
 
@@ -133,7 +137,7 @@ func newExec(P *Program, C *Contracts, fn *ssa.Function, opts *Options) *Exec {
 		declared: map[string]bool{}, universe: map[string]string{}, axiomsOn: map[string]bool{},
 		strLits: map[string]string{}, typeTags: map[string]int{}, notes: map[string]bool{},
 		trusted: map[string]bool{}, assumed: map[string]bool{}, inlined: map[string]bool{},
-		oblCount: map[string]int{}, initHeap: map[string]string{}, initVars: map[string]Val{}, callSiteHits: map[string]int{}, paramRootedCache: map[*ssa.Function]bool{}, freshRefs: map[string]bool{}}
+		oblCount: map[string]int{}, initHeap: map[string]string{}, initVars: map[string]Val{}, callSiteHits: map[string]int{}, paramRootedCache: map[*ssa.Function]bool{}, freshRefs: map[string]bool{}, ghostVars: map[string]Val{}, defMemo: map[string]string{}, callOrdinal: map[string]int{}}
 	return ex
 }
 
@@ -163,9 +167,14 @@ func (ex *Exec) def(hint, sort, term string) string {
 	if ex.noDef > 0 || ex.inQuant > 0 {
 		return term
 	}
+	// common subexpressions share one name (identical terms denote identical values)
+	if n, ok := ex.defMemo[term]; ok {
+		return n
+	}
 	ex.ctr++
 	n := quote(fmt.Sprintf("%s!%d", hint, ex.ctr))
 	ex.emit("(define-fun " + n + " () " + sort + " " + term + ")")
+	ex.defMemo[term] = n
 	return n
 }
 
